@@ -304,6 +304,97 @@ class ScandirOrder:
         os.scandir = self.old
 
 
+class FaultInjector:
+    """persistent faults: (primitive, (st_dev, st_ino)) -> errno, injected by patching os.* in-process"""
+    def __init__(self, faults):
+        self.faults = {(p, ident): en for p, ident, en in faults}
+
+    def __enter__(self):
+        import builtins
+        import io
+        self.saved = (os.open, os.stat, os.fstat, os.scandir, builtins.open)
+        o_open, o_stat, o_fstat, o_scandir, b_open = self.saved
+        faults = self.faults
+
+        def ident_of(path):
+            try:
+                st = o_stat(path)
+                return (st.st_dev, st.st_ino)
+            except OSError:
+                return None
+
+        def hit(prim, ident, path):
+            en = faults.get((prim, ident))
+            if en is not None:
+                code = ERRNO_NAMES.get(en, errno.EIO)
+                raise OSError(code, os.strerror(code), path if isinstance(path, str) else None)
+
+        def f_open(path, flags, *a, **k):
+            if faults:
+                hit('open', ident_of(path), path)
+            return o_open(path, flags, *a, **k)
+
+        def f_stat(path, *a, **k):
+            if faults and isinstance(path, (str, bytes)):
+                hit('stat', ident_of(path), path)
+            return o_stat(path, *a, **k)
+
+        def f_fstat(fd):
+            st = o_fstat(fd)
+            hit('fstat', (st.st_dev, st.st_ino), None)
+            return st
+
+        def f_scandir(path='.'):
+            hit('scandir', ident_of(path), path)
+            return o_scandir(path)
+
+        class ReadFault(io.RawIOBase):
+            def __init__(self, raw, en):
+                self.raw = raw
+                self.en = en
+
+            def readable(self):
+                return True
+
+            def fileno(self):
+                return self.raw.fileno()
+
+            def readinto(self, b):
+                code = ERRNO_NAMES.get(self.en, errno.EIO)
+                raise OSError(code, os.strerror(code))
+
+            def close(self):
+                self.raw.close()
+                super().close()
+
+        def f_bopen(file, mode='r', *a, **k):
+            if isinstance(file, int):
+                st = o_fstat(file)
+                ident = (st.st_dev, st.st_ino)
+            else:
+                ident = ident_of(file)
+                if 'r' in mode and ident is not None:
+                    en = faults.get(('open', ident))
+                    if en is not None:
+                        code = ERRNO_NAMES.get(en, errno.EIO)
+                        raise OSError(code, os.strerror(code), file)
+            en = faults.get(('read', ident))
+            if en is not None and 'r' in mode and 'w' not in mode:
+                raw = io.FileIO(file, 'r', closefd=True) if not isinstance(file, int) else io.FileIO(file, 'r')
+                buf = io.BufferedReader(ReadFault(raw, en))
+                if 'b' in mode:
+                    return buf
+                return io.TextIOWrapper(buf, encoding=k.get('encoding'))
+            return b_open(file, mode, *a, **k)
+        os.open, os.stat, os.fstat, os.scandir = f_open, f_stat, f_fstat, f_scandir
+        builtins.open = f_bopen
+        return self
+
+    def __exit__(self, *a):
+        import builtins
+        os.open, os.stat, os.fstat, os.scandir, builtins.open = self.saved
+
+
 def canon_exc(e, base, paths_extra=()):
     """exception -> model vocabulary; system paths are rewritten to R/..."""
     x = impl.exc_sx(e)
@@ -328,14 +419,14 @@ POLICIES = {0: None, 1: lambda e: False, 2: lambda e: True, 3: lambda e: None,
             4: lambda e: (len(e.path) % 2 == 0)}
 
 
-def run_impl(base, top, opts, allow_create, allow_xdev, ops, order_key, log_hook=None):
+def run_impl(base, top, opts, allow_create, allow_xdev, ops, order_key, real_faults=()):
     """run the operation sequence on the implementation; results in the model's shape"""
     import gemato.recursiveloader as rl
     import gemato.profile as gp
     import gemato.util as gu
     hashes, sort, wm, fmt, profile, sign, keyid, vpgp = opts
     out = []
-    with ScandirOrder(order_key):
+    with FaultInjector(real_faults), ScandirOrder(order_key):
         try:
             kw = {}
             m = rl.ManifestRecursiveLoader(os.path.join(base, top), verify_openpgp=bool(vpgp), openpgp_env=None,
